@@ -48,7 +48,7 @@ PROPS = {
              ["whole-tree induction is _partial (Layer 3); covered by the oracle"], extra_modules=('C05Tabs', 'C05Rest', 'C05Inline', 'C05Doc', ('Inline', r'ordered|translate'),)),
     'C06': P('C06', [('block', 6000, 48000), ('lines', 900, 7200)], ('C06', 15000, 120000),
              "oracle: both metamorphic relations on all tab-free spec inputs (with and without html) and generated/mutated tab-free documents; tree equality modulo the computed shift for the quote relation",
-             ["list relation: every line (blank ones included) indented by the marker width, D contains a non-blank line"], extra_modules=('C06List', ('Block', r'bqScan|tableOk|tokenize_spec'),)),
+             ["list relation: every line (blank ones included) indented by the marker width, D contains a non-blank line"], extra_modules=('C06ListBlank', 'C06List', ('Block', r'bqScan|tableOk|tokenize_spec'),)),
     'C07': P('C07', [('pstate', 10000, 80000), ('pipeline', 1500, 12000)], ('C07', 7500, 60000),
              "oracle: histories of 2-9 documents (reference definitions then uses, unclosed code spans, emphasis lower-bound triggers, fences) on one parser, each compared with a fresh parser (tree with ranges, HTML, XHTML)",
              ["per-document state is local to one parse call: static scan of interior-mutable items"], extra_modules=(('Pipeline', r'doc_pure|doc_refs_local|inline_state_local|doc_deterministic'),)),
